@@ -685,7 +685,7 @@ func (sc *SpecCtx) evalCall(e *ECall) (Val, error) {
 			case *types.Basic:
 				return Val{T: app("str.len_", t), Ty: intT}, nil
 			case *types.Map:
-				return Val{T: sIte(sEq(t, "0"), "0", app("select", vc.cur(sc.env, vc.mapLen().Name), t)), Ty: intT}, nil
+				return Val{T: sIte(sEq(t, "0"), "0", app("select", vc.cur(sc.env, vc.mapLenOf(u).Name), t)), Ty: intT}, nil
 			case *types.Array:
 				return Val{T: fmt.Sprint(u.Len()), Ty: intT}, nil
 			}
@@ -755,13 +755,39 @@ func (sc *SpecCtx) evalCall(e *ECall) (Val, error) {
 		}
 		vc.allocVar()
 		return Val{T: app("select", vc.cur(sc.env, "alloc"), sc.term(v)), Ty: boolT}, nil
+	case "lockstate":
+		// lockstate(mu): 0 = not held, 1 = held shared, 2 = held exclusive (by the owner under consideration)
+		v, err := sc.eval(e.Args[0])
+		if err != nil {
+			return Val{}, err
+		}
+		if v.LV != nil && v.Ty != nil && isLockType(v.Ty) {
+			return Val{T: vc.lockState(sc.env, v.LV), Ty: intT}, nil
+		}
+		if v.Ty != nil {
+			if pt, ok := v.Ty.Underlying().(*types.Pointer); ok && isLockType(pt.Elem()) {
+				return Val{T: vc.lockState(sc.env, &LVal{kind: lvCell, ref: sc.term(v), typ: pt.Elem()}), Ty: intT}, nil
+			}
+		}
+		return Val{}, fmt.Errorf("lockstate: %s is not a mutex", e.Args[0])
 	case "held", "holds":
 		// holds(x.mu, W) / holds(x.mu, R) / held(x.mu)  -- lock state of the current goroutine
 		v, err := sc.eval(e.Args[0])
 		if err != nil {
 			return Val{}, err
 		}
-		st := sc.term(v)
+		var st string
+		if v.LV != nil && v.Ty != nil && isLockType(v.Ty) {
+			st = vc.lockState(sc.env, v.LV)
+		} else if v.Ty != nil {
+			// pointer to a mutex
+			if pt, ok := v.Ty.Underlying().(*types.Pointer); ok && isLockType(pt.Elem()) {
+				st = vc.lockState(sc.env, &LVal{kind: lvCell, ref: sc.term(v), typ: pt.Elem()})
+			}
+		}
+		if st == "" {
+			return Val{}, fmt.Errorf("holds: %s is not a mutex", e.Args[0])
+		}
 		if len(e.Args) == 2 {
 			m, _ := e.Args[1].(*EIdent)
 			if m != nil && m.Name == "W" {
@@ -985,7 +1011,7 @@ func (sc *SpecCtx) mapNameOf(s string) ([]string, error) {
 			return nil, fmt.Errorf("all(%s): not a map type", s)
 		}
 		d, v := sc.vc.mapMaps(mt)
-		return []string{d.Name, v.Name, "MapLen"}, nil
+		return []string{d.Name, v.Name, sc.vc.mapLenOf(mt).Name}, nil
 	}
 	i := strings.LastIndex(s, ".")
 	if i < 0 {
